@@ -237,8 +237,10 @@ func (s *ServerSession) doMsg(stream *Stream) error {
 	case base.RtmpTypeIdAudio:
 		fallthrough
 	case base.RtmpTypeIdVideo:
-		if s.sessionStat.BaseType() != base.SessionBaseTypePubStr {
+		if s.sessionStat.BaseType() != base.SessionBaseTypePubStr || s.avObserver == nil {
+			// 注意，非pub session收到音视频数据，直接返回错误关闭连接，不能继续往下走（此时avObserver为nil）
 			err = nazaerrors.Wrap(base.ErrRtmpUnexpectedMsg)
+			break
 		}
 		s.avObserver.OnReadRtmpAvMsg(stream.toAvMsg())
 	default:
